@@ -329,8 +329,8 @@ func (x *Exec) libCall(key string, fn *types.Func, call *ast.CallExpr, recvExpr 
 			as = append(as, v)
 			sorts = append(sorts, v.Sort)
 		}
-		if sig.Variadic() {
-			allModelled = false
+		if sig.Variadic() && call.Ellipsis.IsValid() {
+			allModelled = false // f(xs...): the slice is not expanded
 		}
 		if allModelled {
 			var out []Term
